@@ -512,6 +512,23 @@ _MISSING = object()
 
 
 @contextlib.contextmanager
+def patched_extra_only(modules, extra):
+    saved = []
+    try:
+        for m in modules:
+            for name, repl in extra.get(m.__name__, {}).items():
+                saved.append((m, name, m.__dict__.get(name, _MISSING)))
+                setattr(m, name, repl)
+        yield
+    finally:
+        for m, name, old in reversed(saved):
+            if old is _MISSING:
+                delattr(m, name)
+            else:
+                setattr(m, name, old)
+
+
+@contextlib.contextmanager
 def object_livepoints():
     """Make nessai build structured arrays with object fields (symbolic)."""
     from nessai import config
